@@ -70,6 +70,7 @@ type sessOpts struct {
 	Provides agent.EdgeType
 	Pad      int
 	Fault    *faultSpec
+	NoClone  bool
 	OnOut    func(edge.Message) // called from the consumer goroutine for every message taken from Out()
 }
 
@@ -102,7 +103,7 @@ func newSession(o sessOpts) *session {
 	s.out = &agentOut{p: s.fromAgent}
 	s.out.cond = sync.NewCond(&s.out.mu)
 	s.ag = agent.New(s.toAgent, s.out)
-	s.h = &echoHandler{a: s.ag, pad: o.Pad, wants: o.Wants, provides: o.Provides, fault: o.Fault}
+	s.h = &echoHandler{a: s.ag, pad: o.Pad, wants: o.Wants, provides: o.Provides, fault: o.Fault, noClone: o.NoClone}
 	s.h.raw = func(b []byte) {
 		s.out.afterFrames(s.h.handed(), func() { s.fromAgent.Write(b) })
 	}
